@@ -425,17 +425,19 @@ OUT:
 }
 
 /* ------------------------------------------------------------ family plumbing */
-static int o_depth, o_reduced;
+static int o_depth, o_reduced, o_sandwich;
 static Trans *alpha; static int nalpha;
+static int step_radix (int i) { return (o_sandwich && (i == 0 || i == o_depth - 1)) ? 4 : nalpha; }   /* sandwich: first and last step are one of the 4 solves */
 static void hist_init (void)
 {
 	build_alphabets ();
 	o_depth = (int) opt_int ("depth", 1);
 	o_reduced = (int) opt_int ("reduced", 0);
 	alpha = o_reduced ? alpha_red : alpha_full; nalpha = o_reduced ? n_red : n_full;
+	o_sandwich = (int) opt_int ("sandwich", 0);
 	if (opt_int ("printalpha", 0)) { for (int i = 0; i < nalpha; i++) fprintf (stderr, "%d %s#%d\n", i, opdefs[alpha[i].op].name, alpha[i].var); }
 }
-static long hist_count (void) { long c = NSTART; for (int i = 0; i < o_depth; i++) c *= nalpha; return c; }
+static long hist_count (void) { long c = NSTART; for (int i = 0; i < o_depth; i++) c *= step_radix (i); return c; }
 
 static const char *truth_name (int t) { return t == TRUTH_OPTIMAL ? "OPTIMAL" : t == TRUTH_INFEASIBLE ? "INFEASIBLE" : t == TRUTH_UNBOUNDED ? "UNBOUNDED" : "UNKNOWN"; }
 
@@ -488,7 +490,7 @@ static void hist_run (long item)
 	long r = item;
 	int start = (int) (r % NSTART); r /= NSTART;
 	Trans seq[8];
-	for (int i = 0; i < o_depth; i++) { seq[i] = alpha[r % nalpha]; r /= nalpha; }
+	for (int i = 0; i < o_depth; i++) { seq[i] = alpha[r % step_radix (i)]; r /= step_radix (i); }
 	/* prune: histories that can show nothing new */
 	size_t mem0 = 0;
 	char capbuf[400]; capbuf[0] = 0;
